@@ -44,6 +44,10 @@ C14_KeysAgree == row.ev = "Key" =>
 \* ... and stays so after other prefix objects of the same chain have been used to build longer chains
 C14_KeysAgreeAfterUse == row.ev = "KeyAfter" =>
    /\ row.cached = row.orig /\ row.cached_content = row.orig /\ row.chain_prefix = row.orig /\ row.cached_len = row.k
+\* ... and a chain decoded into an object that held another chain (its key memoised) is the decoded chain: content and key
+C14_DecodedKeyAgrees == row.ev = "KeyDecoded" =>
+   /\ row.ok /\ row.reused = row.want /\ row.reused_content = row.want
+   /\ row.reused_prefix = row.want /\ row.reused_prefix_content = row.want
 \* the key binds the chain's length: the key of a proper prefix differs from the key of the next longer prefix
 C14_KeyBindsLength == (row.ev = "Key" /\ row.k > 1 /\ T[obs[1] - 1].ev = "Key" /\ T[obs[1] - 1].n = row.n)
                          => T[obs[1] - 1].direct # row.direct
@@ -56,8 +60,8 @@ Conf_Lens == row.ev = "Key" => /\ 1 <= row.k /\ row.k <= row.n /\ row.n <= MaxN
 Conf_Zero == row.ev = "Zero" => row.batch_len = 0 /\ row.all_len = 0 /\ row.tree0 = ZeroHex /\ row.batch0_len = 0
 Conf_End == row.ev = "End" => row.rows = cnt.rows
 
-Clauses == {"C14_KeysAgree", "C14_KeysAgreeAfterUse", "C14_KeyBindsLength", "C14_ZeroChainKey", "Conf_KeyShape", "Conf_Lens", "Conf_Zero", "Conf_End"}
-Holds(c) == CASE c = "C14_KeysAgree" -> C14_KeysAgree [] c = "C14_KeysAgreeAfterUse" -> C14_KeysAgreeAfterUse [] c = "C14_KeyBindsLength" -> C14_KeyBindsLength
+Clauses == {"C14_KeysAgree", "C14_KeysAgreeAfterUse", "C14_DecodedKeyAgrees", "C14_KeyBindsLength", "C14_ZeroChainKey", "Conf_KeyShape", "Conf_Lens", "Conf_Zero", "Conf_End"}
+Holds(c) == CASE c = "C14_KeysAgree" -> C14_KeysAgree [] c = "C14_KeysAgreeAfterUse" -> C14_KeysAgreeAfterUse [] c = "C14_DecodedKeyAgrees" -> C14_DecodedKeyAgrees [] c = "C14_KeyBindsLength" -> C14_KeyBindsLength
               [] c = "C14_ZeroChainKey" -> C14_ZeroChainKey [] c = "Conf_KeyShape" -> Conf_KeyShape
               [] c = "Conf_Lens" -> Conf_Lens [] c = "Conf_Zero" -> Conf_Zero [] c = "Conf_End" -> Conf_End
 TStep == /\ TNext
